@@ -208,6 +208,20 @@ func runC05(r *ev.Run) {
 				got, err := applyHybridQuery(sut.idx.NewSearch(), q).Execute()
 				before := r.Counter("probes:exact")
 				checkHybridAnswer(rep, r, h, q, got, err)
+				if err == nil && rng.IntN(6) == 0 {
+					// autocut (WithCutoff) cuts each modality's own list before fusion, so the fused answer is not a
+					// positional prefix; what must hold: no error or panic for any cutoff value, never more results
+					// than the same search without it, and the same number when disabled (-1)
+					c := []int{-1, 0, 1, 2, 3, 5, -2, -7}[rng.IntN(8)]
+					gc, err2 := applyHybridQuery(sut.idx.NewSearch(), q).WithCutoff(c).Execute()
+					switch {
+					case err2 != nil:
+						rep("hybrid.search-error", fmt.Sprintf("%s cutoff=%d: %v", q, c, err2))
+					case len(gc) > len(got) || (c == -1 && len(gc) != len(got)):
+						rep("hybrid.cutoff-adds-results", fmt.Sprintf("%s cutoff=%d: %d results, without autocut %d", q, c, len(gc), len(got)))
+					}
+					r.Count("probes:with-cutoff", 1)
+				}
 				parts := 0
 				if q.Vector != nil {
 					parts++
